@@ -80,6 +80,8 @@ fn interleaving_hash(h: &History) -> u64 {
             Kind::TimerArm { .. } => "TA",
             Kind::TimerFire { .. } => "TF",
             Kind::TimerCmp { .. } => "TC",
+            Kind::TimerParts { .. } => "TP",
+            Kind::AppSetWrite => "AW",
             Kind::CtlAbandon { .. } => "CA",
             Kind::NeighbourMutate { .. } => "NM",
             Kind::OpCancel { .. } => "OC",
